@@ -337,6 +337,22 @@ def genPermRelCase (idx : Nat) : Gen Case := do
     | 1 => [x, z, u]
     | 2 => [x, y, z, u, extra]
     | _ => if ns.length == 2 then [prod, x, y, z] else [x, z, u, extra]
+  -- relations of the SAME width with a DIFFERENT heading (one name replaced): literal, and computed by joins in a
+  -- permuted order (an unsorted stored heading): `Relation.Less` must compare the sorted headings
+  let other ← pick ["d", "bb", "A", "ab"]
+  let j ← rand ns.length
+  let ns2raw := ns.set j other
+  let ns2 := isort strLt ns2raw
+  let rows2 := rows.map (fun row => ns2.map (fun c => relCell ns2raw row c))
+  let perm2 ← shuffle ns2
+  let perm2 := if perm2 == ns2 then ns2.reverse else perm2
+  let dl := litRelVal ns2 rows2 (← chance 1 3)
+  let dj := joinRelVal ns2 (← shuffle rows2) perm2 (← chance 1 2)
+  let hd ← rand 3
+  let vs := match hd with
+    | 0 => vs ++ [dl]
+    | 1 => vs ++ [dj]
+    | _ => (vs.take 3) ++ [dl, dj]
   let w ← rand 7
   let vs ← shuffle (vs.map (wrapVal w))
   pure (mkCmp s!"C06-r{idx}" s!"permrel/{ns.length}cols/w{w}" vs)
